@@ -51,19 +51,32 @@ def base_req(rnd, pool):
             "algs": [rnd.choice(["ES256", "ES256", "RS256", "EdDSA", "unknown"]) for _ in range(rnd.choice([0, 1, 1, 2, 3]))],
             "exclude": ex, "excludeGiven": bool(ex) or rnd.random() < 0.3, "allow": al, "allowGiven": bool(al) or rnd.random() < 0.3,
             "rk": rnd.random() < 0.4, "up": rnd.random() < 0.9, "uv": rnd.random() < 0.5, "pinAuth": rnd.random() < 0.04,
-            "hs": rnd.choice(["absent", "absent", "true", "false"]), "prf": dict(NOPRF), "cdh": "h"}
+            "hs": rnd.choice(["absent", "absent", "true", "false"]), "prf": dict(NOPRF), "cdh": "h",
+            "unkType": rnd.random() < 0.15}
 
 
 def behaviour(rnd):
     slot = rnd.random() < 0.15
+    # (the map store is exercised by the pinned configurations only: with credentials of several RPs its known
+    # by-id finding F3b would surface under other properties' names)
+    memory = False
     cfg = {"uvCap": rnd.choice(["configured"] * 4 + ["unconfigured", "none"]), "upCap": rnd.random() < 0.9, "counterOn": rnd.random() < 0.6,
            "idLen": rnd.choice([0, 16, 16, 40, 64, 255]), "hmac": rnd.choice(["off", "uvonly", "withoutuv", "withoutuv"]), "mc": rnd.random() < 0.5,
-           "storeKind": "slot" if slot else "reference", "disc": "forced" if slot else rnd.choice(["full", "full", "nondisc", "forced"]),
-           "emptyAsErr": False if slot else rnd.random() < 0.5}
+           "storeKind": "slot" if slot else ("memory" if memory else "reference"),
+           "disc": "forced" if slot or memory else rnd.choice(["full", "full", "nondisc", "forced"]),
+           "emptyAsErr": False if slot or memory else rnd.random() < 0.5}
     store = []
     for cid in ["c1", "c2", "c3"][: (rnd.choice([0, 1]) if slot else rnd.choice([0, 1, 2, 3]))]:
         store.append({"id": cid, "rp": rnd.choice(["r1", "r1", "r2"]), "user": rnd.choice(["u1", "u2", "none"]), "ctr": ctr(rnd),
                       "hm": rnd.choice(["none", "uv", "both"])})
+    if memory:
+        # the map store has no listing order: keep one credential per RP so that id-less lookups are predictable
+        seen, one = set(), []
+        for c in store:
+            if c["rp"] not in seen:
+                seen.add(c["rp"])
+                one.append(c)
+        store = one
     pool = ["c1", "c2", "c3", "x1", "x2"]
     cers = []
     for _ in range(rnd.randrange(1, 13)):
